@@ -1,366 +1,60 @@
-(* Proofs/DetectorsFacts.v — property C09: each single-knee detector returns the interior optimum of its criterion.
-   Tier S = no hypothesis on the arithmetic (every Num, every oracle valuation, NaN included);
-   Tier O = TotalPreorderOn notnan (+ NanUnordered where NaN entries are covered).  *)
-From Coq Require Import ZArith List Bool Arith Lia.
-From Knee Require Import Num NpList OrdLaws Model.Detectors Proofs.ListFacts Proofs.ArgFacts.
+(* Proofs/DetectorsFacts.v — property C09 (all four single-knee detectors): re-exports the generic theorems of
+   DetectorsBase (curvature, DFDT, Menger) and DetectorsLm (L-method), and closes the Tier-O hypotheses for
+   binary64 (FloatNum): non-NaN doubles are totally pre-ordered (FloatOrder.float_total_preorder) and every
+   comparison with a NaN is false (float_nan_unordered, from FloatAxioms.leb_spec / ltb_spec / eqb_spec). *)
+From Coq Require Import ZArith List Bool Arith Lia PrimFloat FloatAxioms SpecFloat FloatOps.
+From Knee Require Import Num NumFloat NpList OrdLaws FloatOrder Model.Detectors Proofs.ArgFacts.
+From Knee Require Export Proofs.DetectorsBase Proofs.DetectorsLm.
 Import ListNotations.
-Local Open Scope num_scope.
 
-(* ------------------------------------------------------------------ small list facts *)
-Lemma interior_length {A} (l : list A) : length (interior l) = length l - 2.
+Lemma f_isnan_true x : f_isnan x = true -> Prim2SF x = S754_nan.
 Proof.
-  unfold interior. destruct l as [|a l]; [reflexivity|]. cbn [tl length].
-  destruct l as [|b l] using rev_ind; [reflexivity|].
-  rewrite removelast_last, app_length. cbn. lia.
+  unfold f_isnan. rewrite eqb_spec. unfold SFeqb.
+  destruct (Prim2SF x) as [s|s| |s m e] eqn:E; auto; intros H.
+  - destruct s; discriminate.
+  - destruct s; discriminate.
+  - rewrite (SFcompare_refl (S754_finite s m e) I) in H. discriminate.
 Qed.
-Lemma interior_nonempty {A} (l : list A) : 3 <= length l -> interior l <> [].
-Proof. intros H E. apply (f_equal (@length A)) in E. rewrite interior_length in E. cbn in E. lia. Qed.
-Lemma dfdt_diff_length {N : Num} (g : list (T N)) t : length (dfdt_diff g t) = length g.
-Proof. apply map_length. Qed.
+Lemma SFcompare_nan_r x : SFcompare x S754_nan = None.
+Proof. destruct x as [s|s| |s m e]; try reflexivity; destruct s; reflexivity. Qed.
 
-Lemma last_In_cons {A} (ks : list A) : forall a, In (last ks a) (a :: ks).
+Theorem float_nan_unordered : NanUnordered FloatNum.
 Proof.
-  induction ks as [|b ks IH]; intros a; [left; reflexivity|].
-  right. destruct ks as [|c ks]; [left; reflexivity|].
-  change (last (b :: c :: ks) a) with (last (c :: ks) a).
-  assert (E : last (c :: ks) a = last (c :: ks) b).
-  { clear. revert c. induction ks as [|d ks IH]; intros c; [reflexivity|]. apply (IH d). }
-  rewrite E. apply IH.
+  constructor; cbn -[PrimFloat.leb PrimFloat.ltb]; intros x y H; apply f_isnan_true in H.
+  - rewrite leb_spec, H. reflexivity.
+  - rewrite leb_spec, H. unfold SFleb. rewrite SFcompare_nan_r. reflexivity.
+  - rewrite ltb_spec, H. reflexivity.
+  - rewrite ltb_spec, H. unfold SFltb. rewrite SFcompare_nan_r. reflexivity.
 Qed.
-Lemma res_knee_In r k : res_knee r = Some k -> exists ks, r = Ok ks /\ In k ks.
+Lemma float_zero_notnan : isnan (@zero FloatNum) = false.
+Proof. reflexivity. Qed.
+
+(* ------------------------------------------------------------------ closed binary64 corollaries *)
+Theorem menger_knee_interior_float (mc : list float) k :
+  @menger_knee FloatNum mc = Some k -> 0 <= k /\ k + 2 <= length mc + 2.
+Proof. apply (@menger_knee_interior FloatNum float_total_preorder float_zero_notnan). Qed.
+
+Theorem curvature_holds_float (curv : list float) :
+  3 <= length curv -> @curvature_holds FloatNum curv (@curvature_knee FloatNum curv) = 0%Z.
+Proof. apply (@curvature_holds_model FloatNum float_total_preorder float_nan_unordered). Qed.
+Theorem dfdt_get_knee_holds_float (grad : list float) (t : float) :
+  3 <= length grad -> @dfdt_get_knee_holds FloatNum grad t (@dfdt_get_knee FloatNum grad t) = 0%Z.
+Proof. apply (@dfdt_get_knee_holds_model FloatNum float_total_preorder float_nan_unordered). Qed.
+Theorem dfdt_knee_holds_float (grad : list float) (iso : nat -> option float) :
+  3 <= length grad -> (forall c, iso c <> None) -> @dfdt_knee_holds FloatNum grad iso (@dfdt_knee_res FloatNum grad iso) = 0%Z.
+Proof. apply (@dfdt_knee_holds_model FloatNum grad iso float_total_preorder float_nan_unordered). Qed.
+Theorem menger_holds_float (mc : list float) : @menger_holds FloatNum mc (@menger_knee FloatNum mc) = 0%Z.
+Proof. apply (@menger_holds_model FloatNum float_total_preorder float_zero_notnan float_nan_unordered). Qed.
+Theorem lm_get_knee_holds_float (err : nat -> oval float) m k :
+  5 <= m -> @lm_get_knee FloatNum err m = OVal k -> @lm_get_knee_holds FloatNum err m (Some k) = 0%Z.
 Proof.
-  destruct r as [[|a ks]| | |]; cbn; try discriminate. intros [= <-].
-  exists (a :: ks). split; auto. apply last_In_cons.
+  intros Hm H. unfold lm_get_knee_holds.
+  destruct (@lm_get_knee_interior FloatNum err m k Hm H).
+  replace ((2 <=? k) && (k + 3 <=? m)) with true by (symmetry; apply andb_true_iff; split; apply Nat.leb_le; lia).
+  cbn [negb]. rewrite (@lm_get_knee_spec FloatNum err float_total_preorder float_nan_unordered m k H). reflexivity.
 Qed.
-Lemma res_knee_ok_nonempty ks : ks <> [] -> exists k, res_knee (Ok ks) = Some k.
-Proof. destruct ks; [congruence|]. intros _. cbn. eauto. Qed.
-
-(* outcome r stopped (did not run out of fuel) and, if it returned normally, ran at most b iterations *)
-Definition within (r : res) (b : nat) : Prop :=
-  match r with OutOfFuel => False | Ok ks => 1 <= length ks <= b | _ => True end.
-Lemma within_cons k r b : within r b -> within (res_cons k r) (S b).
-Proof. destruct r; cbn; auto. lia. Qed.
-Lemma within_le r a b : within r a -> a <= b -> within r b.
-Proof. destruct r; cbn; auto. lia. Qed.
-
-(* ================================================================== curvature *)
-Section Curvature.
-  Context {N : Num}.
-
-  (* Tier S *)
-  Theorem curvature_knee_interior (curv : list (T N)) k :
-    curvature_knee curv = Some k -> 1 <= k /\ k + 2 <= length curv.
-  Proof.
-    unfold curvature_knee. destruct (interior curv) as [|a c] eqn:E; [discriminate|].
-    intros [= <-]. pose proof (argmax_lt (a :: c) ltac:(discriminate)) as H.
-    rewrite <- E, interior_length in H. lia.
-  Qed.
-  Theorem curvature_knee_some (curv : list (T N)) :
-    3 <= length curv -> curvature_knee curv = Some (S (argmax (interior curv))).
-  Proof.
-    intros H. unfold curvature_knee. pose proof (interior_nonempty curv H).
-    destruct (interior curv); [congruence|reflexivity].
-  Qed.
-
-  (* Tier O: result = 1 + first arg-max of the criterion over the interior points 1..n-2 *)
-  Theorem curvature_knee_spec (O : TotalPreorderOn (@notnan N)) (curv : list (T N)) :
-    3 <= length curv -> Forall notnan (interior curv) ->
-    exists k, curvature_knee curv = Some k /\ 1 <= k /\ k + 2 <= length curv /\
-              k = 1 + argmax (interior curv) /\ first_max (interior curv) (k - 1).
-  Proof.
-    intros H Hn. exists (S (argmax (interior curv))).
-    pose proof (curvature_knee_some curv H) as E. split; [exact E|].
-    destruct (curvature_knee_interior _ _ E). repeat split; try lia.
-    replace (S (argmax (interior curv)) - 1) with (argmax (interior curv)) by lia.
-    apply np_argmax_spec; auto. apply interior_nonempty; auto.
-  Qed.
-
-  (* the predicate the judge evaluates holds of the model's answer, and pins it *)
-  Theorem curvature_holds_model (O : TotalPreorderOn (@notnan N)) (NU : NanUnordered N) (curv : list (T N)) :
-    3 <= length curv -> curvature_holds curv (curvature_knee curv) = 0%Z.
-  Proof.
-    intros H. rewrite (curvature_knee_some curv H). unfold curvature_holds.
-    pose proof (argmax_lt (interior curv) (interior_nonempty curv H)) as Hlt. rewrite interior_length in Hlt.
-    replace ((1 <=? S (argmax (interior curv))) && (S (argmax (interior curv)) + 2 <=? length curv)) with true.
-    2:{ symmetry. apply andb_true_iff. split; apply Nat.leb_le; lia. }
-    cbn [negb]. replace (S (argmax (interior curv)) - 1) with (argmax (interior curv)) by lia.
-    rewrite (proj2 (first_argmax_b_iff O NU (interior curv) _ (interior_nonempty curv H)) eq_refl). reflexivity.
-  Qed.
-  Theorem curvature_holds_unique (O : TotalPreorderOn (@notnan N)) (NU : NanUnordered N) (curv : list (T N)) o :
-    3 <= length curv -> curvature_holds curv o = 0%Z -> o = curvature_knee curv.
-  Proof.
-    intros H. rewrite (curvature_knee_some curv H). unfold curvature_holds. destruct o as [k|]; [|discriminate].
-    destruct ((1 <=? k) && (k + 2 <=? length curv)) eqn:E1; cbn [negb]; [|discriminate].
-    destruct (first_argmax_b (interior curv) (k - 1)) eqn:E2; cbn [negb]; [|discriminate]. intros _.
-    apply (first_argmax_b_iff O NU _ _ (interior_nonempty curv H)) in E2.
-    apply andb_true_iff in E1 as [E1 _]. apply Nat.leb_le in E1. f_equal. lia.
-  Qed.
-End Curvature.
-
-(* ================================================================== DFDT *)
-Section Dfdt.
-  Context {N : Num}.
-
-  Lemma dfdt_gkg_some (g : list (T N)) t :
-    3 <= length g -> dfdt_get_knee_gradient g t = Some (S (argmin (interior (dfdt_diff g t)))).
-  Proof.
-    intros H. unfold dfdt_get_knee_gradient.
-    assert (Hne : interior (dfdt_diff g t) <> []) by (apply interior_nonempty; rewrite dfdt_diff_length; auto).
-    destruct (interior (dfdt_diff g t)); [congruence|reflexivity].
-  Qed.
-  Lemma dfdt_gkg_range (g : list (T N)) t j :
-    dfdt_get_knee_gradient g t = Some j -> 3 <= length g /\ 1 <= j /\ j + 2 <= length g /\
-                                           j = S (argmin (interior (dfdt_diff g t))).
-  Proof.
-    unfold dfdt_get_knee_gradient. destruct (interior (dfdt_diff g t)) as [|a c] eqn:E; [discriminate|].
-    intros [= <-]. pose proof (argmin_lt (a :: c) ltac:(discriminate)) as H.
-    rewrite <- E, interior_length, dfdt_diff_length in H.
-    assert (length (interior (dfdt_diff g t)) = S (length c)) by (rewrite E; reflexivity).
-    rewrite interior_length, dfdt_diff_length in *. repeat split; lia.
-  Qed.
-
-  (* single pass (dfdt.get_knee) *)
-  Theorem dfdt_get_knee_interior (grad : list (T N)) t k :
-    dfdt_get_knee grad t = Some k -> 1 <= k /\ k + 2 <= length grad.
-  Proof.
-    unfold dfdt_get_knee. destruct (length grad <? 3); [discriminate|].
-    intros H. apply dfdt_gkg_range in H. lia.
-  Qed.
-  (* Tier O: the interior point whose gradient is closest to the threshold (first such) *)
-  Theorem dfdt_get_knee_spec (O : TotalPreorderOn (@notnan N)) (grad : list (T N)) t :
-    3 <= length grad -> Forall notnan (interior (dfdt_diff grad t)) ->
-    exists k, dfdt_get_knee grad t = Some k /\ 1 <= k /\ k + 2 <= length grad /\
-              k = 1 + argmin (interior (dfdt_diff grad t)) /\ first_min (interior (dfdt_diff grad t)) (k - 1).
-  Proof.
-    intros H Hn. exists (S (argmin (interior (dfdt_diff grad t)))).
-    assert (E : dfdt_get_knee grad t = Some (S (argmin (interior (dfdt_diff grad t))))).
-    { unfold dfdt_get_knee. destruct (length grad <? 3) eqn:L; [apply Nat.ltb_lt in L; lia|]. apply dfdt_gkg_some; auto. }
-    split; [exact E|]. destruct (dfdt_get_knee_interior _ _ _ E). repeat split; try lia.
-    replace (S (argmin (interior (dfdt_diff grad t))) - 1) with (argmin (interior (dfdt_diff grad t))) by lia.
-    apply np_argmin_spec; auto. apply interior_nonempty. rewrite dfdt_diff_length. auto.
-  Qed.
-  Theorem dfdt_get_knee_holds_model (O : TotalPreorderOn (@notnan N)) (NU : NanUnordered N) (grad : list (T N)) t :
-    3 <= length grad -> dfdt_get_knee_holds grad t (dfdt_get_knee grad t) = 0%Z.
-  Proof.
-    intros H. unfold dfdt_get_knee. destruct (length grad <? 3) eqn:L; [apply Nat.ltb_lt in L; lia|].
-    rewrite (dfdt_gkg_some grad t H). unfold dfdt_get_knee_holds.
-    assert (Hne : interior (dfdt_diff grad t) <> []) by (apply interior_nonempty; rewrite dfdt_diff_length; auto).
-    pose proof (argmin_lt _ Hne) as Hlt. rewrite interior_length, dfdt_diff_length in Hlt.
-    set (a := argmin (interior (dfdt_diff grad t))) in *.
-    replace ((1 <=? S a) && (S a + 2 <=? length grad)) with true.
-    2:{ symmetry. apply andb_true_iff. split; apply Nat.leb_le; lia. }
-    cbn [negb]. replace (S a - 1) with a by lia.
-    rewrite (proj2 (first_argmin_b_iff O NU _ a Hne) eq_refl). reflexivity.
-  Qed.
-
-  (* ---------------------------------------------------------------- the refinement loop *)
-  Variable grad : list (T N).
-  Variable iso : nat -> option (T N).
-  Let n := length grad.
-
-  (* "k is exactly what get_knee_gradient(gradient[c:]) + c returns" *)
-  Definition dfdt_exact_at (c k : nat) : bool :=
-    match iso c with
-    | None => false
-    | Some t => match dfdt_get_knee_gradient (skipn c grad) t with Some j => k =? j + c | None => false end
-    end.
-
-  Lemma dfdt_exact_at_range c k : dfdt_exact_at c k = true -> c + 1 <= k /\ k + 2 <= n /\ c + 3 <= n.
-  Proof.
-    unfold dfdt_exact_at. destruct (iso c) as [t|]; [|discriminate].
-    destruct (dfdt_get_knee_gradient (skipn c grad) t) as [j|] eqn:E; [|discriminate].
-    intros H. apply Nat.eqb_eq in H. subst k. apply dfdt_gkg_range in E.
-    rewrite skipn_length in E. fold n in E. lia.
-  Qed.
-
-  (* the loop's trace is a chain of the stated recursion (Tier S: with the exact step) *)
-  Lemma dfdt_iter_chain : forall fuel last cutoff ks,
-    dfdt_iter grad iso fuel last cutoff = Ok ks -> dfdt_chain_b dfdt_exact_at n last cutoff ks = true.
-  Proof.
-    induction fuel as [|f IH]; intros last cutoff ks; cbn [dfdt_iter]; [discriminate|].
-    destruct (iso cutoff) as [t|] eqn:Et; [|discriminate].
-    destruct (dfdt_get_knee_gradient (skipn cutoff grad) t) as [j|] eqn:Ej; [|discriminate].
-    fold n.
-    destruct ((last <? j + cutoff) && (2 <? n - (j + cutoff + 1) / 2)) eqn:G.
-    - destruct (dfdt_iter grad iso f (j + cutoff) ((j + cutoff + 1) / 2)) as [ks'| | |] eqn:R; cbn [res_cons]; try discriminate.
-      intros [= <-]. cbn [dfdt_chain_b]. rewrite G.
-      unfold dfdt_exact_at at 1. rewrite Et, Ej, Nat.eqb_refl. cbn [andb]. apply IH. exact R.
-    - intros [= <-]. cbn [dfdt_chain_b]. rewrite G.
-      unfold dfdt_exact_at. rewrite Et, Ej, Nat.eqb_refl. reflexivity.
-  Qed.
-
-  (* consequences of being a chain, for ANY step predicate that returns interior points of its tail:
-     at most n - 1 - last iterations, every knee interior, strictly increasing until the last one *)
-  Lemma dfdt_chain_facts (at_ : nat -> nat -> bool)
-        (Hat : forall c k, at_ c k = true -> c + 1 <= k /\ k + 2 <= n) : forall ks last cutoff,
-    last + 2 <= n -> dfdt_chain_b at_ n last cutoff ks = true ->
-    1 <= length ks <= n - 1 - last /\ Forall (fun k => cutoff + 1 <= k /\ k + 2 <= n) ks /\
-    SI (last :: removelast ks).
-  Proof.
-    induction ks as [|k ks IH]; intros last cutoff Hl; cbn [dfdt_chain_b]; [discriminate|].
-    intros H. apply andb_true_iff in H as [Ha H]. destruct (Hat _ _ Ha) as [H1 H2].
-    destruct ((last <? k) && (2 <? n - (k + 1) / 2)) eqn:G.
-    - apply andb_true_iff in G as [G1 G2]. apply Nat.ltb_lt in G1. apply Nat.ltb_lt in G2.
-      destruct (IH k ((k + 1) / 2) ltac:(lia) H) as (L & F & S).
-      split; [cbn [length]; lia|]. split.
-      + constructor; [lia|]. eapply Forall_impl; [|exact F]. cbn. intros a [Ha1 Ha2]. split; [|lia].
-        (* cutoff <= (k+1)/2: not needed, knees after the first are > k >= cutoff + 1 *)
-        destruct ks as [|k2 ks2]; [cbn in H; discriminate|].
-        clear - S F Ha1 H1. lia.
-      + destruct ks as [|k2 ks2]; [cbn in H; discriminate|].
-        change (removelast (k :: k2 :: ks2)) with (k :: removelast (k2 :: ks2)).
-        cbn [SI]. split; [lia|]. exact S.
-    - destruct ks; [|discriminate]. cbn. repeat split; try lia. constructor; [lia|constructor].
-  Qed.
-
-  (* Tier S: the loop stops within n iterations, whatever the gradient and the thresholds are *)
-  Lemma dfdt_iter_total : forall fuel last cutoff,
-    last + 2 <= n -> n <= fuel + last + 1 -> cutoff + 3 <= n ->
-    match dfdt_iter grad iso fuel last cutoff with
-    | OutOfFuel | Exc => False
-    | Missing => exists c, iso c = None
-    | Ok _ => True
-    end.
-  Proof.
-    induction fuel as [|f IH]; intros last cutoff H1 H2 H3; [lia|]. cbn [dfdt_iter].
-    destruct (iso cutoff) as [t|] eqn:Et; [|eauto].
-    rewrite dfdt_gkg_some by (rewrite skipn_length; fold n; lia).
-    set (j := S (argmin _)).
-    assert (Hj : dfdt_get_knee_gradient (skipn cutoff grad) t = Some j)
-      by (apply dfdt_gkg_some; rewrite skipn_length; fold n; lia).
-    apply dfdt_gkg_range in Hj. rewrite skipn_length in Hj. fold n in Hj. fold n.
-    destruct ((last <? j + cutoff) && (2 <? n - (j + cutoff + 1) / 2)) eqn:G; [|exact I].
-    apply andb_true_iff in G as [G1 G2]. apply Nat.ltb_lt in G1. apply Nat.ltb_lt in G2.
-    specialize (IH (j + cutoff) ((j + cutoff + 1) / 2) ltac:(lia) ltac:(lia) ltac:(lia)).
-    destruct (dfdt_iter grad iso f (j + cutoff) ((j + cutoff + 1) / 2)); cbn [res_cons]; auto.
-  Qed.
-
-  (* dfdt_knee_total (Tier S): with thresholds available for every tail, dfdt.knee on n >= 3 points returns after
-     at most n iterations; its successive knees form the stated recursion, are interior and strictly increasing
-     up to the last one *)
-  Theorem dfdt_knee_total :
-    3 <= n -> (forall c, iso c <> None) ->
-    exists ks k, dfdt_knee_res grad iso = Ok ks /\ dfdt_knee grad iso = Some k /\ In k ks /\
-                 1 <= length ks <= n /\
-                 dfdt_chain_b dfdt_exact_at n 0 0 ks = true /\
-                 Forall (fun k => 1 <= k /\ k + 2 <= n) ks /\ SI (removelast ks).
-  Proof.
-    intros Hn Hiso. unfold dfdt_knee, dfdt_knee_res. fold n.
-    destruct (n <? 3) eqn:L; [apply Nat.ltb_lt in L; lia|].
-    pose proof (dfdt_iter_total n 0 0 ltac:(lia) ltac:(lia) ltac:(lia)) as T.
-    destruct (dfdt_iter grad iso n 0 0) as [ks| | |] eqn:R; try contradiction.
-    2:{ destruct T as [c Hc]. destruct (Hiso c Hc). }
-    pose proof (dfdt_iter_chain _ _ _ _ R) as C.
-    destruct (dfdt_chain_facts dfdt_exact_at (fun c k H => let '(conj a (conj b _)) := dfdt_exact_at_range c k H in conj a b)
-                _ 0 0 ltac:(lia) C) as (Len & F & S).
-    assert (Hne : ks <> []) by (destruct ks; cbn in Len; [lia|discriminate]).
-    destruct (res_knee_ok_nonempty ks Hne) as [k Hk].
-    destruct (res_knee_In _ _ Hk) as (ks' & [= <-] & Hin).
-    exists ks, k. repeat split; auto; try lia.
-    cbn [SI] in S. destruct (removelast ks); [exact I|]. destruct S. assumption.
-  Qed.
-
-  (* dfdt_knee_interior (Tier S): every gradient array (NaN included), every threshold oracle *)
-  Theorem dfdt_knee_interior k : dfdt_knee grad iso = Some k -> 1 <= k /\ k + 2 <= n.
-  Proof.
-    unfold dfdt_knee, dfdt_knee_res. fold n. destruct (n <? 3) eqn:L; [discriminate|].
-    apply Nat.ltb_ge in L. intros H. destruct (res_knee_In _ _ H) as (ks & R & Hin).
-    pose proof (dfdt_iter_chain _ _ _ _ R) as C.
-    destruct (dfdt_chain_facts dfdt_exact_at (fun c k H => let '(conj a (conj b _)) := dfdt_exact_at_range c k H in conj a b)
-                _ 0 0 ltac:(lia) C) as (_ & F & _).
-    rewrite Forall_forall in F. specialize (F _ Hin). lia.
-  Qed.
-
-  (* Tier O: each step is the declarative "closest interior point of the tail" *)
-  Lemma dfdt_exact_at_spec (O : TotalPreorderOn (@notnan N)) (NU : NanUnordered N) c k :
-    dfdt_exact_at c k = true -> dfdt_at grad iso c k = true.
-  Proof.
-    intros H. pose proof (dfdt_exact_at_range _ _ H) as (R1 & R2 & R3). revert H.
-    unfold dfdt_exact_at, dfdt_at. destruct (iso c) as [t|]; [|discriminate].
-    destruct (dfdt_get_knee_gradient (skipn c grad) t) as [j|] eqn:E; [|discriminate].
-    intros H. apply Nat.eqb_eq in H. subst k. apply dfdt_gkg_range in E as (E1 & E2 & E3 & E4).
-    fold n. apply andb_true_iff. split; [apply andb_true_iff; split; apply Nat.leb_le; lia|].
-    apply (first_argmin_b_iff O NU).
-    - apply interior_nonempty. rewrite dfdt_diff_length. lia.
-    - lia.
-  Qed.
-  Lemma dfdt_chain_mono (a1 a2 : nat -> nat -> bool) (H : forall c k, a1 c k = true -> a2 c k = true) :
-    forall ks last cutoff, dfdt_chain_b a1 n last cutoff ks = true -> dfdt_chain_b a2 n last cutoff ks = true.
-  Proof.
-    induction ks as [|k ks IH]; intros last cutoff; cbn [dfdt_chain_b]; [auto|].
-    intros C. apply andb_true_iff in C as [C1 C2]. rewrite (H _ _ C1). cbn [andb].
-    destruct ((last <? k) && (2 <? n - (k + 1) / 2)); auto.
-  Qed.
-
-  Theorem dfdt_knee_holds_model (O : TotalPreorderOn (@notnan N)) (NU : NanUnordered N) :
-    3 <= n -> (forall c, iso c <> None) -> dfdt_knee_holds grad iso (dfdt_knee_res grad iso) = 0%Z.
-  Proof.
-    intros Hn Hiso. destruct (dfdt_knee_total Hn Hiso) as (ks & k & R & K & Hin & Len & C & F & S).
-    rewrite R. unfold dfdt_knee_holds. unfold dfdt_knee in K. rewrite R in K. rewrite K.
-    rewrite Forall_forall in F. specialize (F _ Hin). fold n.
-    replace ((1 <=? k) && (k + 2 <=? n)) with true by (symmetry; apply andb_true_iff; split; apply Nat.leb_le; lia).
-    replace (length ks <=? n) with true by (symmetry; apply Nat.leb_le; lia).
-    rewrite (dfdt_chain_mono _ _ (dfdt_exact_at_spec O NU) _ _ _ C).
-    rewrite (proj2 (SI_iff _) S). reflexivity.
-  Qed.
-End Dfdt.
-
-(* ================================================================== Menger *)
-Section Menger.
-  Context {N : Num}.
-  Hypothesis O : TotalPreorderOn (@notnan N).
-  Hypothesis Z0 : isnan (@zero N) = false.
-
-  (* the trailing pad 0 never wins: the running maximum is a NaN (the scan has stopped) or is >= 0 *)
-  Lemma argmax_go_pad (l : list (T N)) : forall i best bi,
-    bi < i -> (isnan best = true \/ (isnan best = false /\ zero <=?! best = true)) ->
-    argmax_go (l ++ [zero]) i best bi < i + length l.
-  Proof.
-    induction l as [|x l IH]; intros i best bi Hb Hinv; cbn [app argmax_go length].
-    - destruct (isnan best) eqn:Eb; [lia|]. destruct Hinv as [H|[_ H]]; [discriminate|]. rewrite H. cbn. lia.
-    - destruct (isnan best) eqn:Eb; [lia|]. destruct Hinv as [H|[_ Hz]]; [discriminate|].
-      destruct (x <=?! best) eqn:Hx; cbn [negb].
-      + specialize (IH (S i) best bi ltac:(lia) (or_intror (conj Eb Hz))). lia.
-      + assert (Hinv' : isnan x = true \/ (isnan x = false /\ zero <=?! x = true)).
-        { destruct (isnan x) eqn:Ex; [left; reflexivity|right; split; [reflexivity|]].
-          apply (ord_trans _ O zero best x); auto.
-          destruct (ord_total _ O x best Ex Eb); congruence. }
-        specialize (IH (S i) x i ltac:(lia) Hinv'). lia.
-  Qed.
-
-  (* menger_knee_interior: index in [0, n-2] with n = length mc + 2, for every curvature table (NaN included) *)
-  Theorem menger_knee_interior (mc : list (T N)) k :
-    menger_knee mc = Some k -> 0 <= k /\ k + 2 <= length mc + 2.
-  Proof.
-    unfold menger_knee, menger_padded. intros [= <-]. cbn [argmax].
-    pose proof (argmax_go_pad mc 1 zero 0 ltac:(lia)) as H.
-    specialize (H (or_intror (conj Z0 (ord_refl _ O zero Z0)))). lia.
-  Qed.
-
-  Theorem menger_knee_spec (mc : list (T N)) :
-    Forall notnan mc ->
-    exists k, menger_knee mc = Some k /\ k + 2 <= length mc + 2 /\
-              k = argmax (menger_padded mc) /\ first_max (menger_padded mc) k.
-  Proof.
-    intros Hn. exists (argmax (menger_padded mc)). split; [reflexivity|].
-    destruct (menger_knee_interior mc _ eq_refl). repeat split; try lia.
-    apply np_argmax_spec; auto; unfold menger_padded; [discriminate|].
-    constructor; [exact Z0|]. apply Forall_app. split; auto.
-  Qed.
-
-  Theorem menger_holds_model (NU : NanUnordered N) (mc : list (T N)) : menger_holds mc (menger_knee mc) = 0%Z.
-  Proof.
-    pose proof (menger_knee_interior mc _ eq_refl) as [_ H].
-    unfold menger_knee in *. unfold menger_holds.
-    replace (argmax (menger_padded mc) + 2 <=? length mc + 2) with true by (symmetry; apply Nat.leb_le; lia).
-    cbn [negb]. rewrite (proj2 (first_argmax_b_iff O NU (menger_padded mc) _ ltac:(discriminate)) eq_refl). reflexivity.
-  Qed.
-  Theorem menger_holds_unique (NU : NanUnordered N) (mc : list (T N)) o :
-    menger_holds mc o = 0%Z -> o = menger_knee mc.
-  Proof.
-    unfold menger_holds, menger_knee. destruct o as [k|]; [|discriminate].
-    destruct (k + 2 <=? length mc + 2); cbn [negb]; [|discriminate].
-    destruct (first_argmax_b (menger_padded mc) k) eqn:E; cbn [negb]; [|discriminate]. intros _.
-    apply (first_argmax_b_iff O NU) in E; [congruence|discriminate].
-  Qed.
-End Menger.
+Theorem lmethod_knee_holds_float n (lerr : nat -> nat -> oval float) it limit :
+  5 <= n ->
+  (forall m, 3 <= m <= n -> Forall (fun i => oval_is_val (lerr m i) = true) (lm_cands m)) ->
+  @lmethod_knee_holds FloatNum n lerr it limit (@lmethod_knee_res FloatNum n lerr it limit) = 0%Z.
+Proof. apply (@lmethod_knee_holds_model FloatNum n lerr float_total_preorder float_nan_unordered). Qed.
